@@ -32,12 +32,71 @@ META['C09'] = dict(
   note=("Trusted: Lean kernel + standard axioms; model (sampled agreement); harness. Hypothesis size(v)+capacity < 2^32 is explicit. Two fix: commits (uint16 truncation of the limit test, empty Update value) "
         "were needed for the property to hold; their witnesses are replayed every run. Stale Sizes entries after Reset are allowed by the statement (only live symbols are constrained)."))
 
+
+_ENG_NOTE = ("Trusted: Lean kernel + propext/Classical.choice/Quot.sound; the hand-written engine model (Vise/State, Cache, Render, Vm, Engine .lean) whose agreement with the Go code is sampled: "
+             "every generated session history is run on the real engine (long-lived and per-request with persister) and on the compiled model, and ALL exported state fields, outputs, call and lookup logs are compared per request; "
+             "text/template restricted to literals and {{.name}}; CBOR as snapshot/restore; resource and handlers as parameters; fuel-bounded Run (theorems for all fuel). ")
+
+META['C01'] = dict(
+  text=("Kernel-checked: Page.render and Page.Render (prepare + joinSink + final render) return a page only if it fits the output size (render_fits, renderPage_fits, for every template, mapping, sink, menu, browse config, "
+        "error prefix and index; hypothesis page < 4 GiB) and the page is the whole template instance plus whole menu (render_is_full_instance: no truncation). The engine's Flush is NOT covered by the bound: it appends the exit value "
+        "unchecked — negation witness flush_exit_overflow_counterexample, known finding C01-exit-suffix. Tie: render suite (1500/30000 page definitions at sizes around the natural length, all indices) + engine suite, direct oracle len(out) <= size."),
+  note=_ENG_NOTE + "Open finding C01-exit-suffix is replayed every run and printed as KNOWN-FINDING.")
+META['C02'] = dict(
+  text=("Kernel-checked for all inputs: GetAt never panics (getAt_no_panic), a page past the cursors is an error (past_end_is_error), applyPage adds next exactly on all pages but the last and previous on all but the first "
+        "(next_prev_offered[_fresh]), an index past the page count is the browse error. Completeness of the row grouping is NOT proved: joinSink drops an empty row at a page start and accepts pages the final check rejects — three "
+        "kernel-evaluated negation witnesses, two open known findings. Tie + oracle: the render suite reconstructs the rows from the real pages of every index and checks static parts, next/prev per page and past-the-end."),
+  note=_ENG_NOTE + "pages_partition (complete, once, in order) is left as a documented gap: it is false on the current tree.")
+META['C03'] = dict(
+  text=("Kernel-checked for all programs/inputs (Vise/Props/C03.lean): an INCMP that does not match does not move; the first matching INCMP (selector = input, or wildcard while nothing matched) is exactly the move to its target; "
+        "wildcard honoured only by the first match; no match => MOVE _catch with the invalid-input message; '<' on page 0 is the index error, sets READIN, ignores later INCMPs and changes nothing. The 'once' clause is FALSE on the tree "
+        "(incmp_after_match_still_moves, known finding, not repairable without editing a test); proved instead: a later INCMP moves only if its selector equals the input again."),
+  note=_ENG_NOTE)
+META['C04'] = dict(
+  text=("Kernel-checked refinement (applyTarget_refines): for every state and every valid target the position (stack, index) after applyTarget is what the documented move table specMove gives, and a failing move leaves the position unchanged; "
+        "rewind by induction over any depth; idx reset on descent/ascent; lateral moves keep the stack; '<' at index 0 fails without effect. MOVE, INCMP and CATCH all go through applyTarget in the model. Tie: engine suite compares path and index after every request."),
+  note=_ENG_NOTE + "specMove is transcribed by hand from doc/texinfo/navigation.texi. The two explicit panics of State.Down are excluded by hypothesis (C08).")
+META['C05'] = dict(
+  text=("Kernel-checked: LOAD of a visible symbol is a no-op (no call); otherwise the cache after LOAD is Add(sym,result,uint16(size)) of the cache before and the external call touches neither cache, page nor position (refresh_keeps, "
+        "for any handler result); an oversize result is an error and the cache is unchanged; RELOAD applies Update (accepted values, also empty, are read back: updated_value_readable); mappings are dropped by every move and resume; "
+        "scope lifetime from C09 (get_after_add under any number of pushes, pop_releases). Tie: engine + cache suites compare cache frames, sizes, use, last value and the call log per request."),
+  note=_ENG_NOTE)
+META['C06'] = dict(
+  text=("Kernel-checked: isWriteableFlag i <-> i >= 6 on the constants regenerated from state/flag.go (a changed threshold breaks the build); FlagSet/FlagReset lists of any content leave flags 0..5 untouched, writeable ones take effect; "
+        "while TERMINATE is set Vm.Run returns at once with the VM state untouched, for every program/fuel (terminate_blocks) and Exec reports stop with calls, lookups, position, flags and cache unchanged (terminate_blocks_exec); "
+        "CATCH moves iff flag = mode, CROAK drops the code iff flag = mode; dead code terminates or goes to _catch depending on READIN."),
+  note=_ENG_NOTE)
+META['C07'] = dict(
+  text=("Kernel-checked: restore(snapshot e) reproduces state (minus unexported input/lastMove) and cache exactly; a fresh engine's renderer state is freshPage; every move re-creates exactly that renderer (vmReset_page_fresh) and every resume clears "
+        "mappings, sink, extra, cursors, sink symbol, menu items and error prefix (after three fix: commits). The full simulation persist_equiv is NOT claimed: false after a failed request (witness theorems, known finding) and a menu's browse "
+        "configuration survives a resume without move. Decided otherwise by the check's own two-mode oracle: every long-lived history is re-run per-request on the real engine and all outputs/cont/errors compared."),
+  note=_ENG_NOTE)
+META['C08'] = dict(
+  text=("Kernel-checked for ALL programs (also malformed), inputs, fuel: Vm.Run keeps the cache invariant of C09 — accounting matches contents, one scope per symbol, limits (run_keeps_cache_valid, via a relational Hoare logic over every "
+        "instruction handler); every move keeps one cache scope per navigation level (applyTarget_keeps_lockstep); moves never panic within 128 levels and no self-move (applyTarget_no_panic); decoders never panic (C15). Negation witnesses for the open "
+        "findings: Down panics at level 129 / same node, CROAK breaks the lockstep. Oracle: recover() around Exec/Flush/Finish + invariants recomputed from exported fields on every request of wf=1 applications."),
+  note=_ENG_NOTE + "Four open findings (duplicate-selector panic, code lost after a failed request, maxlevel, CROAK scope) are replayed every run; engine-level (Exec/Flush/reset) preservation of the invariants is by correspondence + oracle, not yet by theorem.")
+META['C17'] = dict(
+  text=("Kernel-checked: a format-refused input makes Exec return its error with the engine EXACTLY as it was (exec_format_refused_no_effect: state, flags, cache, code, page, logs, bookkeeping), for every engine state, with or without first function; "
+        "histories with refused inputs inserted anywhere observe the same as without them (longRun_erase_refused, by induction); a per-request engine leaves the store as it was; Flush before Exec is refused without effect; over-long input leaves the session untouched. "
+        "Holds since the fix: commit moving the format check before init. Oracle: two-run erasure comparison and state-unchanged check on the real engine in both modes."),
+  note=_ENG_NOTE + "matchesInput is a hand-written matcher for the default pattern; custom validators are not modelled.")
+META['C18'] = dict(
+  text=("Kernel-checked: unknown code leaves the language unchanged, valid code selects its ISO-639-3 form, empty result resets; the language survives snapshot/restore; every code lookup, function lookup and external call is logged with exactly the context language "
+        "and nothing else enters the logs (refresh_uses_lang via the OnlyFlagsLang frame); a handler returning LANG + valid code leaves that language in the state (refresh_selects_language); Exec and Flush hand the session language to VM and renderer. "
+        "Tie: the harness resource records the context language of every GetTemplate/GetCode/FuncFor/handler call and the logs are compared entry by entry."),
+  note=_ENG_NOTE)
+META['C20'] = dict(
+  text=("Kernel-checked: empty code with DIRTY => stop, exiting, exit = last value (graceful_end_detected); code ending outside input handling sets TERMINATE; a fresh engine on a code-less stored session starts with MOVE <root> (restart_injects_entry); "
+        "TERMINATE blocks every later run (from C06, for all programs). Unwinding at Flush (path [], one scope, client flags kept) is decided by correspondence and the direct oracle on stored ExecPath/Flags/Cache, not yet by theorem."),
+  note=_ENG_NOTE + "With WithFirst, blocked requests deliver the stale exit value (documented, outside the checked domain).")
+
 NOT_APPLICABLE = {
- 'C01': 'not claimed yet: model and check under construction in this round (planned: Vise/Render.lean, Props/C01.lean)',
- 'C02': 'not claimed yet: under construction', 'C03': 'not claimed yet: under construction', 'C04': 'not claimed yet: under construction',
- 'C05': 'not claimed yet: under construction', 'C06': 'not claimed yet: under construction', 'C07': 'not claimed yet: under construction',
- 'C08': 'not claimed yet: under construction', 'C09': 'not claimed yet: under construction', 'C10': 'not claimed yet: under construction',
+
+
+
+ 'C09': 'not claimed yet: under construction', 'C10': 'not claimed yet: under construction',
  'C11': 'not claimed yet: under construction', 'C12': 'not claimed yet: under construction', 'C13': 'not claimed yet: under construction',
- 'C16': 'not claimed yet: under construction', 'C17': 'not claimed yet: under construction', 'C18': 'not claimed yet: under construction',
- 'C19': 'not claimed yet: under construction', 'C20': 'not claimed yet: under construction',
+ 'C16': 'not claimed yet: under construction',
+ 'C19': 'not claimed yet: under construction',
 }
